@@ -229,6 +229,7 @@ typedef struct {
   int nth;      /* fail the nth call of that kind (1-based); 0 = the nth call of ANY kind (global index) */
   int err;      /* errno to report */
   int fired;
+  int sticky;   /* once the nth call of that kind failed, every later call of that kind fails too (the network went away) */
 } sim_fault_t;
 
 #define SIM_MAXFAULT 16
@@ -405,6 +406,11 @@ static int sim_fault(int kind)
   sim_shape(kind, sim_fault_tcp_hint, 0);
   for (i = 0; i < sim_nfaults; i++) {
     sim_fault_t *f = &sim_faults[i];
+    if (f->fired && f->sticky && f->kind == kind) {
+      sim_faults_fired++;
+      sim_note("fault_fired_sticky");
+      return f->err ? f->err : EIO;
+    }
     if (f->fired) {
       continue;
     }
